@@ -120,7 +120,7 @@ def replay_case(case):
         for form, data, mat in forms:
             for output in OUTPUTS:
                 n += 1
-                base = {"tag": case["tag"], "constructor": label, "dtype": str(series.dtype), "data": form, "output": output, "formula": case["formula"],
+                base = {"values": case["vset"], "tag": case["tag"], "constructor": label, "dtype": str(series.dtype), "data": form, "output": output, "formula": case["formula"],
                         "nulls": case["nulls"], "full_rank": case["full_rank"]}
                 try:
                     mm = model_matrix(case["formula"], data, output=output, ensure_full_rank=case["full_rank"], materializer=mat, context={})
@@ -164,9 +164,9 @@ def run(ctx: Ctx) -> None:
         ctx.evaluations += n
         built[c["tag"]] = built.get(c["tag"], 0) + n
         if c["kind"] == "cat" or c["nulls"]:
-            ctx.nontrivial.add(jhash([c["tag"], c["formula"], c["nulls"], c["full_rank"]]))
+            ctx.nontrivial.add(jhash([c["tag"], c["formula"], c["nulls"], c["full_rank"], c["vset"]]))
         for b in bad:
-            ctx.violation({k: b[k] for k in ("tag", "constructor", "dtype", "data", "output", "formula", "nulls", "full_rank")}, b, kind="replay")
+            ctx.violation({k: b[k] for k in ("tag", "constructor", "dtype", "data", "output", "formula", "nulls", "full_rank")} | {"values": b.get("values")}, b, kind="replay")
     ctx.notes["executions_per_tag"] = built
     ctx.notes["tags_not_constructible_here"] = sorted(t for t, n in built.items() if n == 0)
     for c in [c for c in cases if c["tag"] == "category" and c["formula"] == "v + w" and not c["nulls"] and c["full_rank"]][:1]:
